@@ -214,7 +214,7 @@ impl Engine for AppenderEngine {
         let sched = Sched::swarm(&mut rng, 400);
         json!({
             "engine": "appender", "prop": g.prop, "mode": g.mode,
-            "cfg": {"cap": cap, "lossy": lossy, "producers": producers, "delay_ns": delay_ns, "f9_guard": finding_open("F9") && !probe_f9},
+            "cfg": {"cap": cap, "lossy": lossy, "producers": producers, "delay_ns": delay_ns, "f9_guard": finding_open("F9") && !probe_f9, "builder_order": rng.below(5)},
             "steps": steps, "faults": faults,
             "sched": serde_json::to_value(&sched).unwrap(),
             "hang_is_violation": true,
@@ -287,7 +287,16 @@ impl Engine for AppenderEngine {
             let producers = cfg["producers"].as_u64().unwrap_or(1) as usize;
             let w = SimWriter { st: sink2.clone(), faults: faults.clone(), delay_ns: cfg["delay_ns"].as_u64().unwrap_or(0), gate: gate.clone(), drop_invoked: di2.clone() };
             detsim::allow_foreign(1);
-            let (nb, guard) = tracing_appender::non_blocking::NonBlockingBuilder::default().buffered_lines_limit(cap).lossy(lossy).finish(w);
+            // builder options in a seeded order, with or without a worker thread name: each option must keep the others
+            let b = tracing_appender::non_blocking::NonBlockingBuilder::default();
+            let b = match cfg["builder_order"].as_u64().unwrap_or(0) {
+                1 => b.lossy(lossy).buffered_lines_limit(cap),
+                2 => b.thread_name("sim-appender").buffered_lines_limit(cap).lossy(lossy),
+                3 => b.buffered_lines_limit(cap).thread_name("sim-appender").lossy(lossy),
+                4 => b.lossy(lossy).buffered_lines_limit(cap).thread_name("sim-appender"),
+                _ => b.buffered_lines_limit(cap).lossy(lossy),
+            };
+            let (nb, guard) = b.finish(w);
             detsim::await_foreign();
             let counter = nb.error_counter();
             let mut tids = vec![];
